@@ -93,6 +93,7 @@ func LoadWorld(repo string) (*World, error) {
 		w.fset = p.Fset
 	}
 	w.regAllocKeys()
+	w.registerAllHeaps()
 	// contracts: //@ lines of verif_contracts*.go in each package + stdlib file
 	w.cons = NewContracts()
 	std, err := os.ReadFile(filepath.Join(verifDir(), "contracts", "stdlib.contracts"))
@@ -689,4 +690,87 @@ func (w *World) strConstFacts(used map[int]bool) []*Term {
 		}
 	}
 	return out
+}
+
+// registerAllHeaps pre-registers the heap keys of every type that occurs in
+// the repository's functions, so that contracts can name any of them.
+func (w *World) registerAllHeaps() {
+	seen := map[string]bool{}
+	var visit func(t types.Type)
+	visit = func(t types.Type) {
+		if t == nil {
+			return
+		}
+		k := t.String()
+		if seen[k] {
+			return
+		}
+		seen[k] = true
+		defer func() { recover() }()
+		switch u := types.Unalias(t).Underlying().(type) {
+		case *types.Pointer:
+			visit(u.Elem())
+			if _, ok := w.repoStruct(u.Elem()); !ok {
+				if _, isArr := types.Unalias(u.Elem()).Underlying().(*types.Array); !isArr && w.sortOf(u.Elem()) != "" {
+					w.cellHeap(u.Elem())
+				}
+			}
+		case *types.Slice:
+			visit(u.Elem())
+			if w.sortOf(u.Elem()) != "" {
+				w.elemHeap(u.Elem())
+			}
+		case *types.Array:
+			visit(u.Elem())
+			if w.sortOf(u.Elem()) != "" {
+				w.elemHeap(u.Elem())
+			}
+		case *types.Map:
+			visit(u.Key())
+			visit(u.Elem())
+			if w.sortOf(u.Key()) != "" && w.sortOf(u.Elem()) != "" {
+				w.mapHeaps(u)
+			}
+		case *types.Struct:
+			if st, ok := w.repoStruct(t); ok {
+				var reg func(prefix string, s *types.Struct)
+				reg = func(prefix string, s *types.Struct) {
+					for i := 0; i < s.NumFields(); i++ {
+						f := s.Field(i)
+						visit(f.Type())
+						if sub, ok := w.repoStruct(f.Type()); ok {
+							reg(prefix+"."+f.Name(), sub)
+						} else if w.sortOf(f.Type()) != "" {
+							w.fieldHeapP(prefix, s, i)
+						}
+					}
+				}
+				reg(structPrefix(t), st)
+			}
+		case *types.Tuple:
+			for i := 0; i < u.Len(); i++ {
+				visit(u.At(i).Type())
+			}
+		case *types.Signature:
+			visit(u.Params())
+			visit(u.Results())
+		}
+	}
+	for path := range w.spkgs {
+		if !strings.HasPrefix(path, modPath) {
+			continue
+		}
+		for _, fn := range w.allFuncs(path) {
+			for _, p := range fn.Params {
+				visit(p.Type())
+			}
+			for _, b := range fn.Blocks {
+				for _, ins := range b.Instrs {
+					if v, ok := ins.(ssa.Value); ok {
+						visit(v.Type())
+					}
+				}
+			}
+		}
+	}
 }
